@@ -68,22 +68,33 @@ func runFamilies(fams []generator.FamilyGenerator, obj any) []famOut {
 
 func c20EdsMetrics(_ *testing.T, raw json.RawMessage) (any, error) {
 	var c struct {
-		Obj datadoghqv1alpha1.ExtendedDaemonSet `json:"obj"`
+		// Before: earlier versions of the same object (same UID), exported first: what is exported for Obj must not depend on them
+		Before []datadoghqv1alpha1.ExtendedDaemonSet `json:"before"`
+		Obj    datadoghqv1alpha1.ExtendedDaemonSet   `json:"obj"`
 	}
 	if err := json.Unmarshal(raw, &c); err != nil {
 		return nil, err
 	}
+	fams := edsctrl.VerifGenerateMetricFamilies()
+	for i := range c.Before {
+		runFamilies(fams, &c.Before[i])
+	}
 
-	return runFamilies(edsctrl.VerifGenerateMetricFamilies(), &c.Obj), nil
+	return runFamilies(fams, &c.Obj), nil
 }
 
 func c20ErsMetrics(_ *testing.T, raw json.RawMessage) (any, error) {
 	var c struct {
-		Obj datadoghqv1alpha1.ExtendedDaemonSetReplicaSet `json:"obj"`
+		Before []datadoghqv1alpha1.ExtendedDaemonSetReplicaSet `json:"before"`
+		Obj    datadoghqv1alpha1.ExtendedDaemonSetReplicaSet   `json:"obj"`
 	}
 	if err := json.Unmarshal(raw, &c); err != nil {
 		return nil, err
 	}
+	fams := ersctrl.VerifGenerateMetricFamilies()
+	for i := range c.Before {
+		runFamilies(fams, &c.Before[i])
+	}
 
-	return runFamilies(ersctrl.VerifGenerateMetricFamilies(), &c.Obj), nil
+	return runFamilies(fams, &c.Obj), nil
 }
